@@ -66,10 +66,6 @@ func main() {
 
 	thorough := r.Thorough()
 
-	if os.Getenv("VERIF_C05_BENCH") != "" {
-		bench()
-	}
-
 	var items []item
 
 	items = append(items, exprItems(thorough)...)
@@ -376,38 +372,6 @@ func analyse(r *report.R, scratch string, items []item, res []Res) {
 		r.Sample(map[string]any{"name": items[len(items)/2].name, "source": items[len(items)/2].src})
 		r.Sample(map[string]any{"name": items[len(items)-1].name, "source": items[len(items)-1].src})
 	}
-}
-
-func bench() {
-	setup()
-
-	its := exprItems(false)
-	src := its[len(its)/3].src
-
-	t0 := time.Now()
-	for i := 0; i < 100; i++ {
-		runText(src, false)
-	}
-
-	fmt.Println("100 runs:", time.Since(t0))
-
-	t0 = time.Now()
-	for i := 0; i < 100; i++ {
-		_, _ = render(src, "program")
-	}
-
-	fmt.Println("100 renders:", time.Since(t0))
-
-	t0 = time.Now()
-	for i := 0; i < 100; i++ {
-		judge(Job{Src: src})
-	}
-
-	fmt.Println("100 judges:", time.Since(t0))
-	f, _ := render(src, "program")
-	fmt.Println(firstDiff(src, f))
-	fmt.Println(f)
-	os.Exit(2)
 }
 
 // diedFinding: the original ended, the formatted text ran past the
